@@ -1,39 +1,27 @@
-(* C20 — Surface complexation obeys site balance, electrostatic mass action, charge laws.
-   surf_res, ddl_res, ccm_res, cd_*, edl_*, pot_coef, cd_pot_coef*, surf_lg, *_fail_guards are REGENERATED from /repo on every run
-   (coq/Gen/Gen_C20_surface.v: Phreeqc::residuals, diff_layer_total, add_potential_factor, add_cd_music_factors, gammas);
-   gouy_chapman, ccm_sigma, boltzmann, grahame, cd_plane0/1, sigma_of_species, charge_sum are the textbook definitions of
-   coq/C20/Spec.v (constants F_C, R_J, eps0 = PHREEQC's).  Related statements are grouped into one theorem (conjunction) to keep
-   the number of Print Assumptions (0.9 - 3.5 s each) small. *)
+(* C20 — statements grouped per code region (so that Props/Properties_C20.v needs few, expensive, Print Assumptions);
+   every lemma here is a plain conjunction of lemmas proved in ResidualProofs.v / Guards.v / Checker.v. *)
 From Coq Require Import Reals ZArith QArith Qreals Qabs List String.
-From IPV Require Import Base.RExpr Base.IntervalEval C20.Spec C20.ResidualProofs C20.Guards C20.Checker C20.Summary Gen.Gen_C20_surface.
+From IPV Require Import Base.RExpr Base.IntervalEval C20.Spec C20.ResidualProofs C20.Guards C20.Checker Gen.Gen_C20_surface.
 Import ListNotations.
 Local Open Scope R_scope.
 
-(* --- the SURFACE_CB row of a diffuse-double-layer surface is the Gouy-Chapman equation between the values that EDL("psi") and
-   EDL("sigma") report: residual = 0 <-> sigma = sqrt(8000 eps eps0 R T I) sinh(F psi / 2RT) --- *)
-Theorem ddl_residual_is_gouy_chapman :
+Lemma ddl_residual_is_gouy_chapman_all :
   forall la mu eps tk f A g, 0 <= mu -> 0 <= eps -> 0 < tk ->
   let L := ln 10 in
   let psi := evalR (env_of [la; L; tk]) edl_psi in
   let sigma := evalR (env_of [f; A; g]) edl_sigma in
   evalR (env_of [la; L; mu; eps; tk; f; A; g]) ddl_res = 0 <-> sigma = gouy_chapman eps tk mu psi.
-Proof. exact Summary.ddl_residual_is_gouy_chapman_all. Qed.
-Print Assumptions ddl_residual_is_gouy_chapman.
+Proof. exact (ResidualProofs.ddl_residual_is_gouy_chapman). Qed.
 
-(* --- constant capacitance: residual = 0 <-> sigma = C psi --- *)
-Theorem ccm_residual_is_C_psi :
+Lemma ccm_residual_is_C_psi_all :
   forall la tk C f A g,
   let L := ln 10 in
   let psi := evalR (env_of [la; L; tk]) edl_psi in
   let sigma := evalR (env_of [f; A; g]) edl_sigma in
   evalR (env_of [la; L; tk; C; f; A; g]) ccm_res = 0 <-> sigma = ccm_sigma C psi.
-Proof. exact Summary.ccm_residual_is_C_psi_all. Qed.
-Print Assumptions ccm_residual_is_C_psi.
+Proof. exact (ResidualProofs.ccm_residual_is_C_psi). Qed.
 
-(* --- what EDL(...) reports: psi = 2 R T ln10 la / F (DDL, CCM), psi_k = - R T ln10 la_k / F (CD-MUSIC, identical to the cd_psi
-   values used in the residuals), sigma = F charge / (A g), charge = f (sum of z n over the surface species); with an explicit
-   diffuse layer the rows are residual = -f; LOG_10 = ln 10 --- *)
-Theorem edl_readouts :
+Lemma edl_readouts_all :
   forall la tk q A g, A * g <> 0 ->
   let L := ln 10 in
   evalR (env_of [la; L; tk]) edl_psi = 2 * R_J * tk * L * la / F_C /\
@@ -47,13 +35,9 @@ Theorem edl_readouts :
    evalR (env_of [la; L; tk]) edl_psi2_cd = - R_J * tk * L * la / F_C) /\
   evalR (env_of []) c20_LOG_10 = L /\
   (evalR (env_of [q]) ddl_res_dl = - q /\ evalR (env_of [q]) ccm_res_dl = - q /\ evalR (env_of []) ddl_res_nograms = 0).
-Proof. exact Summary.edl_readouts_all. Qed.
-Print Assumptions edl_readouts.
+Proof. exact (fun la tk q A g H => let '(conj a (conj b (conj c (conj d e)))) := Guards.edl_readouts_all la tk q A g H in conj a (conj b (conj c (conj d (conj e (ddl_res_dl_form q)))))). Qed.
 
-(* --- CD-MUSIC planes 0 and 1: residual = 0 <-> sigma0 = C1 (psi0 - psi1), sigma0 + sigma1 = C2 (psi1 - psi2); the sigma_k are
-   F * (moles of charge of the plane) / (A g); EDL("charge"/"sigma"/"sigma1"/"sigma2") report them; with an explicit diffuse
-   layer the plane-2 row is f + (sigma0 + sigma1) A g / F --- *)
-Theorem cd_music_planes_0_1 :
+Lemma cd_music_planes_0_1_all :
   forall s0 s1 C1 C2 psi0 psi1 psi2 f s A g, A * g <> 0 ->
   ((evalR (env_of [s0; C1; psi0; psi1]) cd_res0 = 0 <-> s0 = cd_plane0 C1 psi0 psi1) /\
    (evalR (env_of [s0; s1; C2; psi1; psi2]) cd_res1 = 0 <-> s0 + s1 = cd_plane1 C2 psi1 psi2)) /\
@@ -63,14 +47,9 @@ Theorem cd_music_planes_0_1 :
   evalR (env_of [f; s0; s1; A; g]) cd_res2_dl = f + (s0 + s1) * (A * g) / F_C /\
   evalR (env_of [s0; A; g]) edl_charge_cd = s0 * (A * g) / F_C /\
   (evalR (env_of [s]) edl_sigma_cd = s /\ evalR (env_of [s]) edl_sigma1_cd = s /\ evalR (env_of [s]) edl_sigma2_cd = s).
-Proof. exact Summary.cd_music_planes_0_1_all. Qed.
-Print Assumptions cd_music_planes_0_1.
+Proof. exact (fun s0 s1 C1 C2 psi0 psi1 psi2 f s A g H => conj (ResidualProofs.cd_music_plane_relations s0 s1 C1 C2 psi0 psi1 psi2) (conj (cd_sigma_forms f s A g H) (conj (cd_res2_dl_form f s0 s1 A g) (conj (edl_charge_cd_form s0 A g) (edl_sigma_cd_form s))))). Qed.
 
-(* --- CD-MUSIC plane 2 (no explicit diffuse layer): for EVERY electrolyte (list of (molality, charge)) the loop of the SURFACE_CB2
-   row (regenerated body cd_gsum_term, cd_gsum1_term, balancing ion cd_gsum_fict_pos / cd_gsum_fict_neg) is the Grahame sum, the
-   stored sigma_ddl is minus the Grahame charge, residual = 0 <-> sigma0 + sigma1 + sigma2 = Grahame(psi2); the exponent
-   negfpsirt is -F psi2 / RT with psi2 the value EDL("psi2") reports --- *)
-Theorem cd_music_plane2_is_grahame :
+Lemma cd_music_plane2_is_grahame_all :
   (forall eps tk ions psi2 s0 s1 s2, 0 <= eps -> 0 < tk -> psi2 <> 0 ->
     let y := - F_C * psi2 / (R_J * tk) in
     let sum := code_gsum_total ions y in
@@ -79,23 +58,16 @@ Theorem cd_music_plane2_is_grahame :
     evalR (env_of [s0; s1; s2; sd]) cd_res2 = 0 <-> s0 + s1 + s2 = grahame eps tk (spec_balancing_ion ions :: ions) psi2) /\
   (forall la tk, 0 < tk ->
     evalR (env_of [la; ln 10]) cd_negfpsirt = - F_C * evalR (env_of [la; ln 10; tk]) edl_psi2_cd / (R_J * tk)).
-Proof. exact Summary.cd_music_plane2_is_grahame_all. Qed.
-Print Assumptions cd_music_plane2_is_grahame.
+Proof. exact (conj Guards.cd_music_plane2_is_grahame Guards.cd_negfpsirt_form). Qed.
 
-(* --- facts about the textbook relations themselves: for a symmetric 1:1 electrolyte the Grahame equation is Gouy-Chapman; Boltzmann
-   factors of several planes multiply; a Donnan enrichment E_r^(z_i/z_r) is the species' own Boltzmann factor --- *)
-Theorem spec_consistency :
+Lemma spec_consistency_all :
   (forall eps tk m psi, 0 <= eps -> 0 < tk -> 0 <= m -> grahame eps tk [(m, 1); (m, -1)] psi = gouy_chapman eps tk m psi) /\
   (forall tk d0 p0 d1 p1 d2 p2,
     boltzmann 1 tk (d0 * p0 + d1 * p1 + d2 * p2) = boltzmann d0 tk p0 * boltzmann d1 tk p1 * boltzmann d2 tk p2) /\
   (forall zr zi tk psi : R, zr <> 0 -> Rpower (boltzmann zr tk psi) (zi / zr) = boltzmann zi tk psi).
-Proof. exact Summary.spec_consistency_all. Qed.
-Print Assumptions spec_consistency.
+Proof. exact (conj Guards.grahame_symmetric_is_gouy_chapman (conj Guards.boltzmann_planes Checker.donnan_boltzmann_power)). Qed.
 
-(* --- electrostatic term of the mass action: the potential master species enters with coefficient -2 dz (DDL, CCM) resp. dz_k per
-   plane (CD-MUSIC), which is the Boltzmann factor exp(-dz F psi / RT) at the reported potential; dz is the sum over the
-   AQUEOUS reactants (type AQ, H+, e-) of z * coefficient --- *)
-Theorem surface_mass_action_has_boltzmann_term :
+Lemma surface_mass_action_has_boltzmann_term_all :
   (forall la tk dz, 0 < tk ->
     (let psi := evalR (env_of [la; ln 10; tk]) edl_psi in
      Rpower 10 (evalR (env_of [dz]) pot_coef * la) = boltzmann dz tk psi) /\
@@ -105,31 +77,19 @@ Theorem surface_mass_action_has_boltzmann_term :
      Rpower 10 (evalR (env_of [dz]) cd_pot_coef2 * la) = boltzmann dz tk psi)) /\
   ((forall z c, evalR (env_of [z; c]) pot_sum_z_term = z * c) /\
    pot_sum_z_guard = [("trxn.token[i].s->type == " ++ (if Z.eqb species_type_AQ 0 then "0" else "?") ++ " || trxn.token[i].s == s_hplus || trxn.token[i].s == s_eminus")%string]).
-Proof. exact Summary.surface_mass_action_has_boltzmann_term_all. Qed.
-Print Assumptions surface_mass_action_has_boltzmann_term.
+Proof. exact (conj Guards.mass_action_boltzmann_all Guards.pot_sum_z_shape). Qed.
 
-(* --- surface species are on the site-fraction scale: 10^(lm + lg) = 10^lm * equiv / sites (10^lm = moles for SURF species);
-   the SURFACE row is the site balance: residual = 0 <-> sum of sites in species (f) = defined sites --- *)
-Theorem surface_activity_and_site_row :
+Lemma surface_activity_and_site_row_all :
   (forall lm equiv sites, 0 < equiv -> 0 < sites ->
     Rpower 10 (lm + evalR (env_of [equiv; sites]) surf_lg) = Rpower 10 lm * (equiv / sites)) /\
   (forall sites f, evalR (env_of [sites; f]) surf_res = 0 <-> f = sites).
-Proof. exact Summary.surface_activity_and_site_row_all. Qed.
-Print Assumptions surface_activity_and_site_row.
+Proof. exact (conj ResidualProofs.surface_activity_is_site_fraction ResidualProofs.site_balance_row). Qed.
 
-(* --- what "converged" means for the surface rows.  The regenerated guard texts have the expected shape (boolean check on generated
-   data); charge_row_fails / site_row_fails (coq/C20/Guards.v) are their meaning --- *)
-Theorem surface_row_guards_shape :
+Lemma surface_row_guards_shape_all :
   guards_shape_ok = true.
-Proof. exact Summary.surface_row_guards_shape_all. Qed.
-Print Assumptions surface_row_guards_shape.
+Proof. exact (Guards.guards_shape). Qed.
 
-(* --- PARTIAL w.r.t. the property: the charge rows are tested with an ABSOLUTE tolerance (C/m2, resp. mol of charge with an explicit
-   diffuse layer), the property asks 1e-8 RELATIVE; they coincide only for |sigma| >= toler / 1e-8 (with -high_precision:
-   toler = 1e-12, i.e. |sigma| >= 1e-4 C/m2 resp. |charge| >= 1e-4 mol).  The site row is relative when ineq_tol <= toler * sites.
-   That the Newton iteration ends with all guards false ("OK") is an oracle.
-   Full statement wanted: OK -> |sigma - law(psi)| <= 1e-8 |law(psi)|; proved: OK -> |sigma - law(psi)| <= toler --- *)
-Theorem ok_implies_laws_partial :
+Lemma ok_implies_laws_partial_all :
   (forall la mu eps tk f A g minrel toler, 0 <= mu -> 0 <= eps -> 0 < tk -> g > minrel ->
     let L := ln 10 in
     let psi := evalR (env_of [la; L; tk]) edl_psi in
@@ -147,23 +107,18 @@ Theorem ok_implies_laws_partial :
   (forall moles f minrel toler ineq_tol, moles > minrel -> 0 <= minrel -> ineq_tol <= toler * moles ->
     ~ site_row_fails moles minrel (evalR (env_of [moles; f]) surf_res) toler ineq_tol ->
     Rabs (f - moles) <= toler * moles).
-Proof. exact Summary.ok_implies_laws_partial_all. Qed.
-Print Assumptions ok_implies_laws_partial.
+Proof. exact (conj ok_implies_charge_law_ddl (conj ok_implies_charge_law_ccm (conj ok_implies_dl_balance Guards.ok_implies_site_balance))). Qed.
 
-(* --- verified checkers used by the correspondence run, exact rational arithmetic (tolerance 1e-8 relative) --- *)
-Theorem verified_exact_checkers_sound :
+Lemma verified_exact_checkers_sound_all :
   (forall l sites, check_sites l sites = true ->
     Rabs (site_sum (to_R l) - Q2R sites) <= / 100000000 * Rabs (Q2R sites)) /\
   (forall l A g C dpsi, check_linear l A g C dpsi = true ->
     Rabs (sigma_of_species (to_R l) (Q2R A) (Q2R g) - Q2R C * Q2R dpsi) <= / 100000000 * Rabs (Q2R C * Q2R dpsi)) /\
   (forall surf dl, check_dl_balance surf dl = true ->
     Rabs (charge_sum (to_R surf) + charge_sum (to_R dl)) <= / 100000000 * Rabs (charge_sum (to_R surf))).
-Proof. exact Summary.verified_exact_checkers_sound_all. Qed.
-Print Assumptions verified_exact_checkers_sound.
+Proof. exact (conj Checker.check_sites_sound (conj Checker.check_linear_sound Checker.check_dl_balance_sound)). Qed.
 
-(* --- verified checkers used by the correspondence run, interval arithmetic (Interval's BigZ floats, 80 bits): sound w.r.t. the
-   textbook relations over Coq's Reals --- *)
-Theorem verified_interval_checkers_sound :
+Lemma verified_interval_checkers_sound_all :
   (forall l A g psi mu eps tk, check_ddl l A g psi mu eps tk = true ->
     let gc := gouy_chapman (Q2R eps) (Q2R tk) (Q2R mu) (Q2R psi) in
     Rabs (sigma_of_species (to_R l) (Q2R A) (Q2R g) - gc) <= / 100000000 * Rabs gc) /\
@@ -177,5 +132,4 @@ Theorem verified_interval_checkers_sound :
   (forall Ei Er zi zr, check_donnan_ratio Ei Er zi zr = true ->
     0 < Q2R Er /\ Q2R zr <> 0 /\
     Rabs (Q2R Ei - Rpower (Q2R Er) (Q2R zi / Q2R zr)) <= / 100000000 * Rabs (Rpower (Q2R Er) (Q2R zi / Q2R zr))).
-Proof. exact Summary.verified_interval_checkers_sound_all. Qed.
-Print Assumptions verified_interval_checkers_sound.
+Proof. exact (conj Checker.check_ddl_sound (conj Checker.check_grahame_sound (conj Checker.check_mass_action_sound (conj Checker.check_activity_sound Checker.check_donnan_ratio_sound)))). Qed.
